@@ -6,7 +6,7 @@
 # test-suite still passes with the patch (demo removed). On success the change is stored under /verif/seeded/<ID>-<X>/.
 set -u
 ID="$1"; X="$2"; DEST="$3"; CRATE="${4:-linfa}"
-SRC="/tmp/seed-$ID/out/$X"
+SRC="${SEED_SRC_ROOT:-/tmp/seed-$ID}/out/$X"
 SLOT="${SEEDCHECK_SLOT:-0}"; SC=/tmp/seedcheck$SLOT; WT=$SC/repo; export CARGO_TARGET_DIR=$SC/target CARGO_NET_OFFLINE=true
 mkdir -p $SC/logs
 [ -d "$WT" ] || git -C /repo worktree add --detach "$WT" HEAD >/dev/null 2>&1
